@@ -62,9 +62,7 @@ theorem plainN (q : E → Bool) : ∀ n, finderN plainCfg q n = .ok (items (expr
     by_cases ht : isTypeDef k = true
     · simp only [ht, if_true]; exact ret_plain plainCfg rfl _ []
     · by_cases hd : isVarDecl k = true
-      · simp only [ht, hd, if_true, Bool.false_eq_true, if_false, finderT, h2, bindE]
-        rw [ret_plain plainCfg rfl, uq_plain]
-        simp only [bindE]
+      · simp only [ht, hd, if_true, Bool.false_eq_true, if_false, h1, bindE]
         have : items (exprsCs q cs) ++ List.map (fun x => R.item (Item.e x)) (initials q (symbolsOf cs))
             = items (exprsCs q cs ++ initials q (symbolsOf cs)) := by simp [items]
         rw [this, ret_plain plainCfg rfl, uq_plain]
@@ -95,7 +93,7 @@ end
 /-! ### pairing mode -/
 
 mutual
-/-- what `[self.visit(c) for c in flatten(o.children)]` amounts to for a node without declarations below it -/
+/-- what `[self.visit(c) for c in flatten(o.children)]` amounts to with pairing -/
 def mixC (cfg : Cfg) (q : E → Bool) : Child → List R
   | .e x => items ((postorder x).filter q)
   | .junk _ => []
@@ -141,7 +139,7 @@ theorem pairsN_all (cfg : Cfg) (q : E → Bool) : ∀ n, AllPairs (pairsN cfg q 
     · simp [ht, AllPairs]
     · simp only [ht, Bool.false_eq_true, if_false]
       apply AllPairs.append ih
-      by_cases hd : (dfinds q cs).isEmpty = true <;> simp [hd, AllPairs, R.isPair]
+      by_cases hd : (ownFinds q k cs).isEmpty = true <;> simp [hd, AllPairs, R.isPair]
 theorem pairsC_all (cfg : Cfg) (q : E → Bool) : ∀ c, AllPairs (pairsC cfg q c)
   | .e _ => by simp [pairsC, AllPairs]
   | .junk _ => by simp [pairsC, AllPairs]
@@ -184,41 +182,44 @@ end
 
 theorem isEmpty_itemsE (xs : List E) : (itemsE xs).isEmpty = xs.isEmpty := by cases xs <;> rfl
 
-/-- `_return(node, …)` with pairing on what the children of a declaration-free node deliver -/
-theorem ret_pairing (cfg : Cfg) (hp : cfg.pairing = true) (q : E → Bool) (u : Nat) (cs : List Child) :
-    ret cfg (.node u) (mixCs cfg q cs)
-      = .ok (pairsCs cfg q cs ++ (if (dfinds q cs).isEmpty then [] else [R.pair u (itemsE (uq cfg (dfinds q cs)))])) := by
+/-- `_return(node, …)` with pairing on what the children of a node deliver (plus the finds in initial values) -/
+theorem ret_pairing (cfg : Cfg) (hp : cfg.pairing = true) (q : E → Bool) (u : Nat) (k : String) (cs : List Child) :
+    ret cfg (.node u) (mixCs cfg q cs ++ items (if isVarDecl k then initials q (symbolsOf cs) else []))
+      = .ok (pairsCs cfg q cs ++
+          (if (ownFinds q k cs).isEmpty then [] else [R.pair u (itemsE (uq cfg (ownFinds q k cs)))])) := by
   obtain ⟨h1, h2, h3⟩ := mixCs_facts cfg q cs
   unfold ret
-  simp only [h1, h2, h3, hp, if_true, isEmpty_itemsE, findUniques_itemsE]
-  by_cases hd : (dfinds q cs).isEmpty = true <;> simp [hd]
+  simp only [List.flatMap_append, List.filter_append, List.filterMap_append, h1, h2, h3, flat1_items, isPair_items,
+    item?_items, List.append_nil, hp, if_true, ← itemsE_append, isEmpty_itemsE, findUniques_itemsE]
+  simp only [ownFinds]
+  by_cases hd : (dfinds q cs ++ if isVarDecl k = true then initials q (symbolsOf cs) else []).isEmpty = true <;>
+    simp only [hd, if_true, Bool.false_eq_true, if_false, List.append_nil]
 
 mutual
 theorem pairN (cfg : Cfg) (hp : cfg.pairing = true) (q : E → Bool) :
-    ∀ n, hasDeclN n = false → finderN cfg q n = .ok (pairsN cfg q n)
+    ∀ n, finderN cfg q n = .ok (pairsN cfg q n)
   | .mk k u l cs h => by
-    intro hn
     have ih := pairLeaves cfg hp q cs
-    simp only [hasDeclN] at hn
+    have hr := ret_pairing cfg hp q u k cs
     simp only [finderN, pairsN]
     by_cases ht : isTypeDef k = true
     · simp [ht, ret, hp]
-    · simp only [ht, Bool.false_eq_true, if_false, Bool.or_eq_false_iff] at hn ⊢
-      simp only [hn.1, Bool.false_eq_true, if_false, ih hn.2, bindE]
-      exact ret_pairing cfg hp q u cs
+    · by_cases hd : isVarDecl k = true
+      · simp only [ht, hd, if_true, Bool.false_eq_true, if_false, ih, bindE] at hr ⊢
+        exact hr
+      · simp only [ht, hd, Bool.false_eq_true, if_false, ih, bindE, items, List.map_nil, List.append_nil] at hr ⊢
+        exact hr
 theorem pairLeaf (cfg : Cfg) (hp : cfg.pairing = true) (q : E → Bool) :
-    ∀ c, hasDeclC c = false → finderLeaf cfg q c = .ok (mixC cfg q c)
-  | .e x => by intro _; simp only [finderLeaf, mixC, walk_eq]; rfl
-  | .junk _ => by intro _; simp [finderLeaf, mixC]
-  | .n x => by intro hc; simp only [finderLeaf, mixC]; exact pairN cfg hp q x (by simpa [hasDeclC] using hc)
-  | .grp cs => by intro hc; simp only [finderLeaf, mixC]; exact pairLeaves cfg hp q cs (by simpa [hasDeclC] using hc)
+    ∀ c, finderLeaf cfg q c = .ok (mixC cfg q c)
+  | .e x => by simp only [finderLeaf, mixC, walk_eq]; rfl
+  | .junk _ => by simp [finderLeaf, mixC]
+  | .n x => by simp only [finderLeaf, mixC]; exact pairN cfg hp q x
+  | .grp cs => by simp only [finderLeaf, mixC]; exact pairLeaves cfg hp q cs
 theorem pairLeaves (cfg : Cfg) (hp : cfg.pairing = true) (q : E → Bool) :
-    ∀ cs, hasDeclCs cs = false → finderLeaves cfg q cs = .ok (mixCs cfg q cs)
-  | [] => by intro _; simp [finderLeaves, mixCs]
+    ∀ cs, finderLeaves cfg q cs = .ok (mixCs cfg q cs)
+  | [] => by simp [finderLeaves, mixCs]
   | c :: cs => by
-    intro hc
-    simp only [hasDeclCs, Bool.or_eq_false_iff] at hc
-    simp only [finderLeaves, mixCs, pairLeaf cfg hp q c hc.1, pairLeaves cfg hp q cs hc.2, bindE]
+    simp only [finderLeaves, mixCs, pairLeaf cfg hp q c, pairLeaves cfg hp q cs, bindE]
 end
 
 /-! ### the pairs add up to the plain result -/
@@ -234,43 +235,44 @@ theorem perm_shuffle {α} {a1 a2 p1 p2 d1 d2 : List α} (h1 : a1.Perm (p1 ++ d1)
   exact List.perm_append_comm
 
 mutual
-theorem permN (q : E → Bool) : ∀ n, hasDeclN n = false →
+theorem permN (q : E → Bool) : ∀ n,
     (itemsE (exprsN q n)).Perm ((pairsN plainPair q n).flatMap R.found)
   | .mk k u l cs h => by
-    intro hn
     have ih := permCs q cs
-    simp only [hasDeclN] at hn
     simp only [exprsN, pairsN]
     by_cases ht : isTypeDef k = true
     · simp [ht, itemsE]
-    · simp only [ht, Bool.false_eq_true, if_false, Bool.or_eq_false_iff] at hn ⊢
-      simp only [hn.1, Bool.false_eq_true, if_false, List.flatMap_append]
-      refine (ih hn.2).trans ?_
-      apply List.Perm.append_left
-      by_cases hd : (dfinds q cs).isEmpty = true
-      · have : dfinds q cs = [] := by simpa using hd
-        simp [this, itemsE]
-      · simp [hd, R.found, uq, plainPair]
-theorem permC (q : E → Bool) : ∀ c, hasDeclC c = false →
+    · have hown : ((if (ownFinds q k cs).isEmpty then [] else [R.pair u (itemsE (uq plainPair (ownFinds q k cs)))]).flatMap R.found)
+          = itemsE (ownFinds q k cs) := by
+        by_cases hd : (ownFinds q k cs).isEmpty = true
+        · have : ownFinds q k cs = [] := by simpa using hd
+          simp [this, itemsE]
+        · simp [hd, R.found, uq, plainPair]
+      simp only [ht, Bool.false_eq_true, if_false, List.flatMap_append]
+      rw [hown]
+      simp only [ownFinds]
+      by_cases hd : isVarDecl k = true
+      · simp only [hd, if_true, itemsE_append]
+        rw [← List.append_assoc]
+        exact ih.append_right _
+      · simp only [hd, Bool.false_eq_true, if_false, List.append_nil]
+        exact ih
+theorem permC (q : E → Bool) : ∀ c,
     (itemsE (exprsC q c)).Perm ((pairsC plainPair q c).flatMap R.found ++ itemsE (dfinds q [c]))
-  | .e x => by intro _; simp [exprsC, pairsC, dfinds, directCs, directC]
-  | .junk _ => by intro _; simp [exprsC, pairsC, dfinds, directCs, directC, itemsE]
+  | .e x => by simp [exprsC, pairsC, dfinds, directCs, directC]
+  | .junk _ => by simp [exprsC, pairsC, dfinds, directCs, directC, itemsE]
   | .n x => by
-    intro hc
-    have := permN q x (by simpa [hasDeclC] using hc)
+    have := permN q x
     simpa [exprsC, pairsC, dfinds, directCs, directC, itemsE] using this
   | .grp cs => by
-    intro hc
-    have := permCs q cs (by simpa [hasDeclC] using hc)
+    have := permCs q cs
     simpa [exprsC, pairsC, dfinds, directCs, directC] using this
-theorem permCs (q : E → Bool) : ∀ cs, hasDeclCs cs = false →
+theorem permCs (q : E → Bool) : ∀ cs,
     (itemsE (exprsCs q cs)).Perm ((pairsCs plainPair q cs).flatMap R.found ++ itemsE (dfinds q cs))
-  | [] => by intro _; simp [exprsCs, pairsCs, dfinds, directCs, itemsE]
+  | [] => by simp [exprsCs, pairsCs, dfinds, directCs, itemsE]
   | c :: cs => by
-    intro hc
-    simp only [hasDeclCs, Bool.or_eq_false_iff] at hc
     simp only [exprsCs, pairsCs, itemsE_append, List.flatMap_append, dfinds_cons q c cs]
-    exact perm_shuffle (permC q c hc.1) (permCs q cs hc.2)
+    exact perm_shuffle (permC q c) (permCs q cs)
 end
 
 end LokiModel.C15
